@@ -133,6 +133,11 @@ pub fn gen_cancel(property: &str, profile: &str, seed: u64) -> Plan {
     plan.store.deferred_max_ms = 300;
     // every I/O is a suspension point in half of the runs (current-thread flavour)
     sw.big_values = sw.rng.chance(1, 3);
+    // a third of the runs: blocking closures on their own threads, interleaved at I/O-call granularity
+    plan.sched.preempt_jobs = sw.rng.chance(1, 3);
+    if plan.sched.preempt_jobs {
+        plan.sched.inplace_small = false;
+    }
     let mix = Mix { write: 50, delete: 22, idle: 5, lifecycle: 8, lifecycle_bg: 0, force: 0, free: 2, offload: 0, fsync: 3, restart: 0, clock: 0 };
     let n0 = sw.rng.range(5, 22) as usize;
     let mut ops = Vec::new();
@@ -173,7 +178,16 @@ pub fn gen_bitflip(property: &str, profile: &str, seed: u64) -> Plan {
     for _ in 0..n0 {
         ops.push(gen_op(&mut sw, &mix, plan.store.key_len));
     }
-    if !profile.contains("clean") {
+    if profile.contains("sweep") {
+        // index in memory or (after the idle period) on disk, then every position of one record's data
+        if sw.rng.chance(1, 2) {
+            let uid = sw.uid();
+            ops.push(Op { uid, think_ms: 0, kind: OpKind::Idle { ms: 1_000 } });
+        }
+        let uid = sw.uid();
+        let class = *sw.rng.pick(&[ByteClass::Data, ByteClass::Data, ByteClass::Data, ByteClass::Meta, ByteClass::RecHeader]);
+        ops.push(Op { uid, think_ms: 0, kind: OpKind::FlipSweep { blob: sw.rng.below(6) as usize, rec: sw.rng.below(8) as usize, class, max_positions: if profile.contains("full") { 4096 } else { 48 } } });
+    } else if !profile.contains("clean") {
         let classes = [ByteClass::Data, ByteClass::Data, ByteClass::Data, ByteClass::Data, ByteClass::Meta, ByteClass::RecHeader, ByteClass::BlobHeader];
         let flip = |rng: &mut Rng| AtRest::BitFlip { blob: rng.below(6) as usize, rec: rng.below(8) as usize, class: *rng.pick(&classes), off: rng.below(1 << 20) as u32, mask: burst(rng) };
         if sw.rng.chance(1, 2) {
